@@ -566,6 +566,9 @@ func checkScalarPairs(w *World, c *Check, t *tables, rule string) {
 			if p, found := floatPrecisionArg(f); found && p != -1 {
 				bad = fmt.Sprintf("floats are formatted with a fixed precision of %d digits instead of the shortest representation that reads back exactly (precision -1): values needing more digits change", p)
 			}
+			if bs, found := floatBitSizeArg(f); found && bs != 64 {
+				bad = fmt.Sprintf("float64 properties are formatted with bit size %d: the shortest decimal of the nearest float%d is written, so values that need more than its mantissa do not read back equal", bs, bs)
+			}
 			if bad != "" {
 				c.bad(rule, key, w.FuncPos(f), bad)
 			} else {
@@ -635,6 +638,37 @@ func floatPrecisionArg(f *ssa.Function) (int64, bool) {
 				return k.Int64(), true
 			}
 			return 0, true // non-constant precision: cannot be shown to be the shortest form
+		}
+	}
+	return 0, false
+}
+
+// floatBitSizeArg: the constant bit size handed to strconv.FormatFloat / AppendFloat in f (0 when not constant).
+func floatBitSizeArg(f *ssa.Function) (int64, bool) {
+	for _, b := range f.Blocks {
+		for _, in := range b.Instrs {
+			call, ok := in.(ssa.CallInstruction)
+			if !ok {
+				continue
+			}
+			cal := call.Common().StaticCallee()
+			if cal == nil || cal.Object() == nil || cal.Object().Pkg() == nil || cal.Object().Pkg().Path() != "strconv" {
+				continue
+			}
+			idx := -1
+			switch cal.Name() {
+			case "FormatFloat":
+				idx = 3
+			case "AppendFloat":
+				idx = 4
+			}
+			if idx < 0 || idx >= len(call.Common().Args) {
+				continue
+			}
+			if k, ok := call.Common().Args[idx].(*ssa.Const); ok && k.Value != nil {
+				return k.Int64(), true
+			}
+			return 0, true
 		}
 	}
 	return 0, false
